@@ -11,7 +11,7 @@ use std::sync::Mutex;
 pub fn run(tier: Tier) -> i32 {
     let rep = Report::new("C14", tier, "model_checking");
     let nfreq = tier.pick(33usize, 129usize);
-    let lens: &[usize] = tier.pick(&[2, 3, 4, 10, 25], &[2, 3, 4, 5, 10, 25, 35, 40]);
+    let lens: &[usize] = tier.pick(&[2, 3, 4, 5, 10, 25], &[2, 3, 4, 5, 6, 7, 8, 10, 15, 20, 25, 30, 35, 40]);
     let betas = [0.0, 0.1, 0.3, 0.5];
     let alphas = [0.0, 0.3, 0.6];
     rep.set_rule("SCOPE: cepstrum lattice of C06 (scaled so (1+beta) x shape <= 2 Np) x beta {0,.1,.3,.5} x alpha {0,.3,.6} x vector lengths; second pulse of a stationary 2-frame run through the real Vocoder; oracle: log|H_beta|-log|H_0|-beta*sum_{m>=2} c_m cos(m w~) constant over frequency within 0.01 Np, impulse-response energy within 1%, beta=0 and length 2 bit-identical to no postfilter; distinct = (length, alpha, beta, cepstrum); non-trivial = beta>0 and length>2");
@@ -29,7 +29,7 @@ pub fn run(tier: Tier) -> i32 {
     let worst = Mutex::new((0.0f64, 0.0f64));
     let grid = freq_grid(nfreq);
     let nontriv = std::sync::atomic::AtomicU64::new(0);
-    par_for(cases.len(), 2, |i| {
+    rep.par_for(cases.len(), 2, "C14 part 1", |i| {
         let (len, alpha, scale, pat) = &cases[i];
         let mut c = pat.clone();
         let mx = shape_max(&c, *alpha);
